@@ -13,6 +13,8 @@ TEXT = {
          'DESIGN.md section 3 C05', 'TLA+ spec RepLike.tla + TLC exhaustive + TLC trace validation with state snapshots'),
  'C06': ('TLC explores all histories of subscribe / unsubscribe / publish / receive on 2 contexts over byte strings that include empty, equal and prefix-of-each-other topics on spec/Sub.tla (QueuedMatches: everything queued matches a current subscription, in particular after Unsubscribe; delivery is an order-preserving duplicate-free subsequence of what matched at arrival; contexts are independent; queues drop only their oldest message when full); the real SUB socket is driven in a synctest bubble with harness publishers sending arbitrary byte strings (non-UTF8, empty, colliding prefixes) and TLC recomputes the matching on the logged bytes: every Recv result must be the head of the specification\'s queue, absence of delivery is decided by quiescence, snapshots bind subscriptions and queue lengths; the application scribbles over every message and topic buffer it owns.',
          'DESIGN.md section 3 C06', 'TLA+ spec Sub.tla (reference matcher) + TLC exhaustive + TLC trace validation'),
+ 'C07': ('TLC explores all histories of survey / receive / close on 2 contexts with current, stale, foreign and malformed responses, expiry and a new survey at every point on spec/Surveyor.tla (the asynchronous cancel of the previous survey is a separate action): a survey queue only holds responses carrying its id with the request bit, a context\'s current survey is registered and its own, every delivered response answers the survey its Recv was bound to, cancelled surveys are unregistered; the real SURVEYOR socket is driven in a synctest bubble with the harness as respondents: which pipes each survey is handed to, crafted responses relative to start and expiry, and exact virtual time (a blocked Recv must fail with ErrProtoState at exactly the expiry instant, Recv without survey fails at once, survey time 0 never expires); traces incl. snapshots of the registered surveys are validated against the specification. The RESPONDENT side (an answer reaches only the surveyor that asked) is the RepLike.tla check of C05 run on the RESPONDENT socket.',
+         'DESIGN.md section 3 C07', 'TLA+ spec Surveyor.tla + TLC exhaustive + TLC trace validation with exact virtual time'),
  'C09': ('The seven hop-count receive loops are transcribed statement by statement into spec/Hops.tla and TLC evaluates, for every TTL (quick: 8 values incl. 1, 8, 254, 255; thorough: all of 1..255), every position of the terminating word 0..TTL+2 and the interesting numbers of available words (resp. every hop byte), that the transcription delivers exactly when the hop count is within the limit (PAIR1: one more), moves exactly the routing header, and never delivers garbage; the same grid is then injected into the eight real receivers (REP, XREP, RESPONDENT, XRESPONDENT, PAIR1, XPAIR1, STAR, XSTAR) through the virtual transport and every observed outcome (delivered or not, header length handed up, hop byte written) must equal what the transcription computes; the TTL option must accept exactly 1..255 and default to 8.',
          'DESIGN.md section 3 C09', 'TLA+ transcription Hops.tla evaluated exhaustively by TLC + TLC-validated injection grid on the real receivers'),
  'C13': ('TLC explores every interleaving of addPipe / pipe.Close / remPipe / hooks / protocol verdicts / socket close of spec/Core.tla for 2-3 connections (exhaustive within the cfg constants) and checks the hook language, protocol-told-once-each and id-held-until-Detached-returned invariants; the real internal/core is then driven through scripted and seeded scenarios (hook-side closes in Attaching/Attached, protocol refusals, peer drops incl. during proto.AddPipe, listener and dialer sides, socket close) in a synctest bubble and every recorded trace (hook events with the id and the allocator state, what the protocol was told, snapshots of ids in use / pipes listed at each quiescence) must be a behaviour of Core.tla on which those invariants hold.',
@@ -21,6 +23,7 @@ TEXT = {
          'DESIGN.md section 3 C14', 'TLA+ spec Core.tla + TLC exhaustive + TLC trace validation with exact virtual timestamps'),
 }
 NOTES = {
+ 'C07': 'trusted: TLC, synctest virtual time, virtual transport/recorder, SURVEYOR snapshot accessor; a Recv is bound to the survey that is current when it is called (as the code does); responses to the old survey that arrive before its asynchronous cancel ran can still reach a Recv that was already waiting on it',
  'C06': 'trusted: TLC, synctest, virtual transport/recorder, SUB snapshot accessor; the PUB side (every message to every connected subscriber, queue space permitting) is decided by the broadcast specification used for C08, see DESIGN.md',
  'C05': 'trusted: TLC, synctest, virtual transport/recorder, the REP/RESPONDENT snapshot accessors; raw XREP/XRESPONDENT routing and device chains are covered by the raw-socket checks, not here',
  'C09': 'trusted: TLC, the virtual transport; the transcription is bound to the code by the injection grid (a divergence of code and transcription is a rejected trace, a wrong transcription that matches wrong code is a false HopExact assumption in TLC); device chains end to end are exercised by the topology checks',
